@@ -498,6 +498,42 @@ Definition run_join (t : text) (count : nat) (i : nat) : ostate :=
       mkO t' (s + Nat.min col (length acc - 1))%nat None
     end.
 
+(** ** j and k as motions: the line [count] lines down / up (as far as there are lines; on the last / first line they
+    fail), at the display column of the cursor - a character that takes two cells (CJK, emoji) counts two, and a column
+    that falls on its second cell is that character *)
+Definition in_range (c lo hi : N) : bool := (lo <=? c) && (c <=? hi).
+Definition wide_c (c : N) : bool :=
+  in_range c 4352 4447 || in_range c 11904 42191 || in_range c 44032 55203 || in_range c 63744 64255
+  || in_range c 65072 65135 || in_range c 65280 65376 || in_range c 65504 65510
+  || in_range c 127744 128591 || in_range c 129280 129535 || in_range c 131072 262141.
+Definition cwidth (c : N) : nat := if wide_c c then 2%nat else 1%nat.
+(** the display column of position [i] on the line that starts at [s] *)
+Definition dcol (t : text) (s i : nat) : nat := fold_right (fun c a => (cwidth c + a)%nat) 0%nat (slice t s i).
+(** the position on the line [p, e) whose cells hold display column [target]; the last character when the line is shorter *)
+Fixpoint at_dcol (fuel : nat) (t : text) (p e acc target : nat) : nat :=
+  match fuel with
+  | O => p
+  | S f =>
+    if Nat.leb e (S p) then p
+    else match nth_error t p with
+         | Some c => if Nat.ltb target (acc + cwidth c) then p else at_dcol f t (S p) e (acc + cwidth c)%nat target
+         | None => p
+         end
+  end.
+Definition move_vert (t : text) (down : bool) (count : nat) (i : nat) : nat :=
+  let count := Nat.max count 1 in
+  let s := line_start_from t i in
+  let col := dcol t s i in
+  if down then
+    if last_line_at t i then i
+    else let e := nth_line_end t i count in
+         let s' := line_start_from t e in
+         at_dcol (S (length t)) t s' e 0 col
+  else
+    if Nat.eqb s 0 then i
+    else let s' := up_lines t i count in
+         at_dcol (S (length t)) t s' (line_end t s') 0 col.
+
 (** [P] of a register at the cursor (characterwise: before the cursor; linewise: above the cursor's line) *)
 Definition put_before (s : ostate) : text :=
   match o_reg s with
